@@ -147,7 +147,21 @@ def check_case(case, ctx):
     if opts.get("has_var"):
         opts["has_var"] = [KNOWN.get(fields[0], fields[0]), "not_a_field"]
     try:
-        out = capture(Menu, "plt00100", **opts)
+        if case.get("cli", case["slash"]):
+            # through the command line entry point (has_var is a comma separated string there)
+            import amr_kitchen.menu.cli as mcli
+            ctx.label("menu-cli")
+            argv = ["menu", "plt00100"] + (["-m"] if opts.get("min_max") else []) + (["-f"] if opts.get("finest_lv") else []) \
+                + (["-d"] if opts.get("description") else []) + (["-e"] if opts.get("every") else []) \
+                + (["-hv", ", ".join(opts["has_var"])] if opts.get("has_var") else [])
+            old = sys.argv
+            sys.argv = argv
+            try:
+                out = capture(mcli.main)
+            finally:
+                sys.argv = old
+        else:
+            out = capture(Menu, "plt00100", **opts)
     except BaseException as e:
         v.append(f"menu raised {type(e).__name__}: {e} (options {case['opts']}, fields {fields})")
         out = None
